@@ -1,15 +1,38 @@
 import GeffModel.Proto
 import GeffModel.Lineage
+import GeffModel.LineageData
 open Lean Geff Geff.Proto
 
-/-- request: {"nodes":[..], "labels":[..], "edges":[[u,v],..]} ; zip is non-strict as in Python -/
+def getBoolList (j : Json) : Except String (List Bool) := do
+  let arr ← j.getArr?
+  arr.toList.mapM fun x => x.getBool?
+
+/-- requests:
+* (no "op") {"nodes":[..], "labels":[..], "edges":[[u,v],..]} — the abstract model; zip is non-strict as in Python
+* {"op":"arrays", nodes, labels, edges} — `validate_lineages` on integer arrays (int64 cast, rendered messages)
+* {"op":"data", nodes, values, missing: null | [bool..], edges} — the lineage branch of `validate_data` -/
 def handle (j : Json) : Except String Json := do
+  let op := (j.getObjValAs? String "op").toOption.getD ""
   let nodes ← getIntList (← j.getObjVal? "nodes")
-  let labels ← getIntList (← j.getObjVal? "labels")
   let edges ← getIntPairs (← j.getObjVal? "edges")
-  let nl := nodes.zip labels
-  let errs := Lineage.lineageErrors nl edges
-  return Json.mkObj [("valid", Json.bool (Lineage.validateLineages nl edges)),
-                     ("bad", Json.arr (errs.map intJson).toArray)]
+  if op == "arrays" then
+    let labels ← getIntList (← j.getObjVal? "labels")
+    let r := Lineage.validateLineagesArrays nodes labels edges
+    return Json.mkObj [("valid", Json.bool r.1), ("messages", Json.arr (r.2.map Json.str).toArray)]
+  else if op == "data" then
+    let values ← getIntList (← j.getObjVal? "values")
+    let mj ← j.getObjVal? "missing"
+    let missing ← (if mj.isNull then pure none else do pure (some (← getBoolList mj)))
+    match Lineage.validateDataLineage nodes values missing edges with
+    | .ok => return Json.mkObj [("outcome", "ok")]
+    | .indexError => return Json.mkObj [("outcome", "IndexError")]
+    | .valueError a b => return Json.mkObj [("outcome", "ValueError"), ("args", Json.arr #[Json.str a, Json.str b])]
+  else if op == "" then
+    let labels ← getIntList (← j.getObjVal? "labels")
+    let nl := nodes.zip labels
+    let errs := Lineage.lineageErrors nl edges
+    return Json.mkObj [("valid", Json.bool (Lineage.validateLineages nl edges)),
+                       ("bad", Json.arr (errs.map intJson).toArray)]
+  else throw s!"unknown op {op}"
 
 def main : IO Unit := Proto.run handle
